@@ -279,15 +279,25 @@ def pickArg (env : Env) (ret : Ann) (args : List TA) (i : Nat) : Raw :=
   | some a => if coroReturnChecked then isSubtype env ret a else .ok true
   | none => .raised .indexError
 
+/-- a coroutine function against an expected return type that is neither Awaitable[..] nor Coroutine[..]:
+    `return _get_class_of_type_annotation(ret_type) is object` (a Union is `typing.Union` / a `types.UnionType`, never `object`),
+    or the constant the source returns -/
+def coroOther (env : Env) (eret : TA) : Raw :=
+  if coroOtherTopTest then
+    (match eret with
+     | .union _ _ => .ok false
+     | t => .ok (clsOf env t == env.object))
+  else .ok coroOtherResult
+
 /-- the tail of `_instancecheck_callable` after the parameter block -/
 def retCheck (env : Env) (coro : Bool) (ret : Ann) (eret : TA) : Raw :=
   if !(coroTest && coro) then
     (if syncReturnChecked then isSubtype env ret eret else .ok syncReturnConst)
   else
     match eret with                                        -- base = get_base_generic(ret_type)
-    | .gen1 g t => if g == env.awaitableGen then pickArg env ret [t] awaitableArgIndex else .ok coroOtherResult
-    | .gen3 g t => if g == env.coroutineGen then pickArg env ret [.any, .any, t] coroutineArgIndex else .ok coroOtherResult
-    | _ => .ok coroOtherResult
+    | .gen1 g t => if g == env.awaitableGen then pickArg env ret [t] awaitableArgIndex else coroOther env eret
+    | .gen3 g t => if g == env.coroutineGen then pickArg env ret [.any, .any, t] coroutineArgIndex else coroOther env eret
+    | _ => coroOther env eret
 
 /-- `_is_lambda(obj)`: `callable(obj) and obj.__name__ == '<lambda>'` -/
 def isLambda (isCallable : Bool) (name : NameR) : Raw :=
